@@ -1020,24 +1020,20 @@ func TestBinFixedTriangle(t *testing.T) {
 	runBatches(t, rec, thin(below), workers())
 }
 
-// TestBinFixedEmptyProbe documents, without asserting, what FixedLengthSum does when nothing was
-// written (declared maximum 0). sha256 handles it (covered by TestBinFixedTriangle); the sha3
-// family panics while building the circuit. The outcome is recorded as a note / class only:
-// a zero-capacity buffer is a degenerate use the documentation does not speak about.
+// TestBinFixedEmptyProbe: FixedLengthSum when nothing was written (declared maximum 0) must
+// give the digest of the empty message, as sha256 does (TestBinFixedTriangle). The sha3 family
+// used to panic while building the circuit (finding F35, fixed): plain regression case.
 func TestBinFixedEmptyProbe(t *testing.T) {
 	rec := ev.Get(ID)
 	for _, h := range []string{"sha3-256", "keccak-256"} {
 		it := BinItem{Hash: h, Msg: []byte{}, Chunks: []int{0}, Mode: "fixed"}
-		err, stage := execBin(BinBatch{Field: "bn254", Engine: "test", Items: []BinItem{it}})
+		b := BinBatch{Field: "bn254", Engine: "test", Items: []BinItem{it}}
+		err, stage := execBin(b)
 		if err != nil {
-			rec.Note("probe (not asserted): %s FixedLengthSum(0) with nothing written fails in the %s: %s", h, stage, firstLine(err))
-			rec.Discarded("probe:fixed-max0:" + h + ":fails")
-			if kf, ok := ev.OpenFinding(ID, "sha3-fixedlengthsum-empty-buffer-panic"); ok {
-				rec.KnownFinding(kf.ID, kf.What)
-			}
-		} else {
-			rec.Discarded("probe:fixed-max0:" + h + ":ok")
+			p := rec.Violate("bin", b, fmt.Sprintf("%s FixedLengthSum(0) with nothing written fails in the %s: %s", h, stage, firstLine(err)))
+			t.Fatalf("VIOLATION %s replay=%s", ID, p)
 		}
+		rec.Count("bin", b, true, "fixed-max0:"+h)
 	}
 }
 
